@@ -313,10 +313,7 @@ func drive(t *testing.T, rng *rand.Rand, cfg Cfg, o driveOpts, sum *summary, tf 
 		flushDue := func(e int) {
 			if o.UseUpdate {
 				ob := do(Act{Name: "Update", E: e})
-				next[e] = ob.Drive
-				if next[e] <= w.Elapsed() {
-					next[e] = w.Elapsed() + 1
-				}
+				next[e] = nextPoll(w, e, ob)
 			} else {
 				ob := do(Act{Name: "Flush", E: e})
 				next[e] = w.Elapsed() + ob.Ret
@@ -522,10 +519,7 @@ func cleanRun(t *testing.T, rng *rand.Rand, cfg Cfg, delay int, useUpdate bool, 
 		flush := func(e int) {
 			if useUpdate {
 				ob := do(Act{Name: "Update", E: e})
-				next[e] = ob.Drive
-				if next[e] <= w.Elapsed() {
-					next[e] = w.Elapsed() + 1 // Check says "now": poll again at the next millisecond
-				}
+				next[e] = nextPoll(w, e, ob)
 			} else {
 				ob := do(Act{Name: "Flush", E: e})
 				next[e] = w.Elapsed() + ob.Ret
@@ -749,10 +743,7 @@ func settlePhase(w *World, tr *vh.Trace, do func(Act) Obs, useUpdate bool, next 
 	flushDue := func(e int) {
 		if useUpdate {
 			ob := do(Act{Name: "Update", E: e})
-			next[e] = ob.Drive
-			if next[e] <= w.Elapsed() {
-				next[e] = w.Elapsed() + 1
-			}
+			next[e] = nextPoll(w, e, ob)
 		} else {
 			ob := do(Act{Name: "Flush", E: e})
 			next[e] = w.Elapsed() + ob.Ret
@@ -853,10 +844,7 @@ func stallRun(t *testing.T, rng *rand.Rand, cfg Cfg, pauseMs int, useUpdate bool
 		flushDue := func(e int) {
 			if useUpdate {
 				ob := do(Act{Name: "Update", E: e})
-				next[e] = ob.Drive
-				if next[e] <= w.Elapsed() {
-					next[e] = w.Elapsed() + 1
-				}
+				next[e] = nextPoll(w, e, ob)
 			} else {
 				ob := do(Act{Name: "Flush", E: e})
 				next[e] = w.Elapsed() + ob.Ret
@@ -921,4 +909,144 @@ func stallRun(t *testing.T, rng *rand.Rand, cfg Cfg, pauseMs int, useUpdate bool
 		sum.Nontrivial++
 		active = nil
 	})
+}
+
+// TestCoreFates: exhaustive fate enumeration on the real code (the C02 quantifier "all fate assignments to the first K
+// datagrams"): a short one-directional transfer (no reverse data, so lost ACKs are not healed by piggy-backed una),
+// every datagram emitted by either end takes the next fate of the vector -- 0 deliver, 1 drop, 2 deliver twice,
+// 3 hold back until the heal (reordering) -- then the network is fair and the run settles. Every vector in
+// {0,1,2,3}^K is executed, for several configurations and both drives.
+func TestCoreFates(t *testing.T) {
+	out := vh.OutDir(t)
+	K := vh.EnvInt("FATES_K", 5)
+	tf, err := vh.OpenTraceFile(filepath.Join(out, "core_fates.ndjson"))
+	vh.Must(err)
+	sum := newSummary()
+	cfgs := []Cfg{
+		{Mtu: 56, SndWnd: 4, RcvWnd: 4, NoDelay: 0, Interval: 100, Resend: 0, Nc: 0, Stream: 1, AckNoDelay: 0},
+		{Mtu: 56, SndWnd: 3, RcvWnd: 3, NoDelay: 1, Interval: 10, Resend: 2, Nc: 0, Stream: 0, AckNoDelay: 1},
+		{Mtu: 56, SndWnd: 4, RcvWnd: 2, NoDelay: 1, Interval: 20, Resend: 1, Nc: 1, Stream: 1, AckNoDelay: 0},
+	}
+	total := 1
+	for i := 0; i < K; i++ {
+		total *= 4
+	}
+	for ci, cfg := range cfgs {
+		for v := 0; v < total; v++ {
+			fates := make([]int, K)
+			x := v
+			for i := range fates {
+				fates[i] = x % 4
+				x /= 4
+			}
+			fateRun(t, cfg, fates, (v+ci)%2 == 1, sum, tf, fmt.Sprintf("fates%d-%v", ci, fates))
+		}
+	}
+	vh.Must(tf.Close())
+	sum.Traces, sum.Lines = tf.N, tf.L
+	vh.WriteJSON(filepath.Join(out, "core_fates.json"), sum)
+}
+
+func fateRun(t *testing.T, cfg Cfg, fates []int, useUpdate bool, sum *summary, tf *vh.TraceFile, label string) {
+	synctest.Test(t, func(t *testing.T) {
+		w := NewWorld(cfg, 0xFFFFFFFE, 0x7FFFFFFF, 0xFFFFFF00)
+		tr := &vh.Trace{}
+		do := func(a Act) Obs {
+			if !w.Enabled(a) {
+				return Obs{}
+			}
+			obs, in := w.Step(a)
+			if a.Name == "Recv" && obs.Ret == -1 {
+				return obs
+			}
+			record(tr, w, a, obs, in)
+			sum.Steps++
+			sum.Acts[a.Name]++
+			classify(sum, a, obs, in)
+			if obs.Panic != "" {
+				sum.Panics = append(sum.Panics, fmt.Sprintf("%s %+v: %s", label, a, obs.Panic))
+			}
+			return obs
+		}
+		next := [3]int{0, 0, 0}
+		flushDue := func(e int) {
+			if useUpdate {
+				ob := do(Act{Name: "Update", E: e})
+				next[e] = nextPoll(w, e, ob)
+			} else {
+				ob := do(Act{Name: "Flush", E: e})
+				next[e] = w.Elapsed() + ob.Ret
+			}
+		}
+		mss := cfg.Mtu - 24
+		// three writes: 1 segment, 2 segments, a partial one
+		for _, n := range []int{mss, 2 * mss, mss / 2} {
+			do(Act{Name: "Send", E: 1, A: n})
+		}
+		fi := 0
+		held := 0 // datagrams at the front of w.Net that are held back until the heal
+		for iter := 0; iter < 4000 && len(sum.Panics) == 0 && fi < len(fates); iter++ {
+			for e := 1; e <= 2; e++ {
+				if w.Elapsed() >= next[e] {
+					flushDue(e)
+				}
+			}
+			for len(w.Net) > held && fi < len(fates) {
+				i := held + 1
+				switch fates[fi] {
+				case 0:
+					do(Act{Name: "Deliver", E: w.Net[i-1].dst, A: i, B: 0})
+				case 1:
+					do(Act{Name: "Drop", E: w.Net[i-1].dst, A: i})
+				case 2:
+					do(Act{Name: "Deliver", E: w.Net[i-1].dst, A: i, B: 1})
+					do(Act{Name: "Deliver", E: w.Net[i-1].dst, A: i, B: 0})
+				case 3:
+					held++
+				}
+				fi++
+				for do(Act{Name: "Recv", E: 2, A: 1 << 20}).Ret >= 0 {
+				}
+			}
+			if fi >= len(fates) {
+				break
+			}
+			d := next[1] - w.Elapsed()
+			if d2 := next[2] - w.Elapsed(); d2 < d {
+				d = d2
+			}
+			if d < 1 {
+				d = 1
+			}
+			do(Act{Name: "Tick", A: d})
+		}
+		if len(sum.Panics) == 0 {
+			settlePhase(w, tr, do, useUpdate, &next, sum)
+		}
+		tf.WriteTrace(map[string]any{"cfg": cfg, "src": label, "clean": false, "forged": false}, tr)
+		sum.Behaviours++
+		nontrivial := false
+		for _, f := range fates {
+			if f != 0 {
+				nontrivial = true
+			}
+		}
+		if nontrivial {
+			sum.Nontrivial++
+		}
+		active = nil
+	})
+}
+
+// nextPoll: when to call Update again. Check's answer if it lies in the future; when Check says "now" although Update
+// has just run (a retransmission is due but Update only flushes at ts_flush), poll at ts_flush instead of every ms.
+func nextPoll(w *World, e int, ob Obs) int {
+	now := w.Elapsed()
+	if ob.Drive > now {
+		return ob.Drive
+	}
+	if tf := w.Proj(e).TsFlush; tf > now {
+		return tf
+	}
+	return now + 1
 }
